@@ -80,6 +80,17 @@ def _problem(wide):
     return pb
 
 
+_SELFKILL = {"at": None, "k": 0, "n": 0}
+
+
+def _maybe_selfkill(ctl, what):
+    """SIGKILL to itself right after the k-th dump returned / at the k-th run-function completion"""
+    if ctl["at"] == what:
+        ctl["n"] += 1
+        if ctl["n"] == ctl["k"]:
+            os.kill(os.getpid(), signal.SIGKILL)
+
+
 def _make_search(run, idx, log_dir, side, reuse=None):
     """one search of a scenario; its run-function appends '<idx>.<job id>' to the completion log
     with a single O_APPEND write just before it returns.  `reuse` = a search whose evaluator (and
@@ -96,6 +107,7 @@ def _make_search(run, idx, log_dir, side, reuse=None):
         fd = os.open(os.path.join(side, "done.log"), os.O_WRONLY | os.O_CREAT | os.O_APPEND, 0o644)
         nobj, fail, batch, sleep = run["nobj"], run.get("fail", "none"), run["batch"], run.get("sleep", False)
         cell = {"idx": idx, "first": None}
+        ctl = _SELFKILL  # harness-made kill points that are not system calls on results.csv
 
         async def run_function(job):
             jid = int(job.id.split(".")[1])
@@ -106,7 +118,9 @@ def _make_search(run, idx, log_dir, side, reuse=None):
             failed = (fail == "first" and rel < batch) or (fail == "some" and rel % 3 == 1) or fail == "all"
             if sleep:
                 await asyncio.sleep(0.04 + 0.09 * (jid % 3))
-            os.write(fd, f"{cell['idx']}.{jid}\n".encode())
+            # '<search>.<job> <F | number of objectives it returns>' : what the row of this evaluation has to show
+            os.write(fd, f"{cell['idx']}.{jid} {'F' if failed else nobj}\n".encode())
+            _maybe_selfkill(ctl, "done")
             if failed:
                 return "F_injected"
             if nobj == 1:
@@ -114,6 +128,22 @@ def _make_search(run, idx, log_dir, side, reuse=None):
             return tuple(x * (i + 1) - k * (1 - i) for i in range(nobj))
 
         ev = Evaluator.create(run_function, method="serial", method_kwargs={"num_workers": run["batch"]})
+        # dump-returned log, independent of the file: the evaluator's public dump method is wrapped from outside;
+        # the jobs that left `jobs_done` during a call are the ones that call dumped
+        dfd = os.open(os.path.join(side, "dumped.log"), os.O_WRONLY | os.O_CREAT | os.O_APPEND, 0o644)
+        orig_dump = ev.dump_jobs_done_to_csv
+
+        def dump_and_log(*a, **k):
+            before = [job.id for job in ev.jobs_done]
+            out = orig_dump(*a, **k)
+            left = {job.id for job in ev.jobs_done}
+            gone = [j for j in before if j not in left]
+            if gone:
+                os.write(dfd, (" ".join(f"{cell['idx']}.{j.split('.')[1]}" for j in gone) + "\n").encode())
+                _maybe_selfkill(ctl, "dump")
+            return out
+
+        ev.dump_jobs_done_to_csv = dump_and_log
     pb = _problem(run.get("wide", 0))
     kind, seed = run["kind"], run.get("seed", 1)
     if kind == "random":
@@ -146,6 +176,8 @@ def _program(scn, log_dir, side):
     """what the traced child executes"""
     if scn.get("clock") == "const":
         time.strftime = lambda *a, **k: CONST_STAMP
+    sk = scn.get("_selfkill")
+    _SELFKILL.update(at=sk["at"] if sk else None, k=sk["k"] if sk else 0, n=0)
     mark = os.open(os.path.join(side, "marks.log"), os.O_WRONLY | os.O_CREAT | os.O_APPEND, 0o644)
 
     state = {"prev": None}
@@ -525,10 +557,17 @@ def _task(task):
     os.makedirs(log_dir)
     os.makedirs(side)
     try:
-        status, pid, text = _run_traced(scn, log_dir, side, inject)
-        raw = _parse_strace(text, pid, log_dir, os.path.join(side, "marks.log"))
+        if task.get("selfkill"):
+            cpid, go = _fork(_program, {**scn, "_selfkill": task["selfkill"]}, log_dir, side)
+            os.write(go, b"x")
+            os.close(go)
+            status, raw = _wait(cpid), []
+        else:
+            status, pid, text = _run_traced(scn, log_dir, side, inject)
+            raw = _parse_strace(text, pid, log_dir, os.path.join(side, "marks.log"))
         sidefiles = _read_dir(side)
         out = {"status": status, "ops": _result_ops(raw),
+               "dumped": [l for l in sidefiles.get("dumped.log", "").split("\n") if l],
                "files": {n: t for n, t in _read_dir(log_dir).items() if _is_result_name(n)},
                "done": [l for l in sidefiles.get("done.log", "").split("\n") if l],
                "marks": [l for l in sidefiles.get("marks.log", "").split("\n") if l],
@@ -797,6 +836,54 @@ def _jobs(lines):
     return [[l[1], l[2]] for l in lines if l[0] in ("r", "t")]
 
 
+def _dumped_jobs(lines, sid=None):
+    out = []
+    for l in lines:
+        for tok in l.split():
+            a, b = tok.split(".")
+            if sid is None or int(a) == sid:
+                out.append([int(a), int(b)])
+    return out
+
+
+def _done_status(done):
+    """(search, job) -> 'F' or the number of objectives the run-function returned"""
+    out = {}
+    for l in done:
+        t = l.split()
+        a, b = t[0].split(".")
+        out[(int(a), int(b))] = "F" if len(t) < 2 or t[1] == "F" else int(t[1])
+    return out
+
+
+def _bad_objective_rows(text, sid, status):
+    """rows of evaluations that SUCCEEDED (completion log) must carry their objectives: as many objective columns
+    as the run-function returned values, every cell a number"""
+    rows = list(csv.reader(io.StringIO(text)))
+    if len(rows) < 2 or "job_id" not in rows[0]:
+        return []
+    h = rows[0]
+    cols = [i for i, c in enumerate(h) if c == "objective" or re.match(r"objective_\d+$", c)]
+    jc, bad = h.index("job_id"), []
+    for r in rows[1:]:
+        try:
+            st = status.get((sid, int(r[jc])))
+        except (ValueError, IndexError):
+            continue
+        if not isinstance(st, int):
+            continue
+        ok = len(cols) == st and len(r) > max(cols)
+        if ok:
+            try:
+                [float(r[i]) for i in cols]
+            except ValueError:
+                ok = False
+        if not ok:
+            bad.append({"job": int(r[jc]), "objectives_returned": st, "objective_columns": [h[i] for i in cols],
+                        "cells": [r[i] if i < len(r) else None for i in cols]})
+    return bad
+
+
 def _done_jobs(done):
     out = []
     for l in done:
@@ -885,6 +972,12 @@ def _scenarios(ck):
                  "calls": [rng.randint(1, 3) for _ in range(rng.randint(1, 2))], "seed": rng.randint(0, 999)} for _ in range(n)]
         early.append({"clock": "const" if t % 2 == 0 else "real", "runs": runs, "early": True})
     same = same + early
+    for s in core + extra + same:
+        for r in s["runs"]:
+            # a first CALL that ends with only failed evaluations forces the header with a single objective column
+            # (C04's recorded finding): the first call of such a run is made long enough to see a success
+            if r["nobj"] > 1 and r.get("fail") == "first" and r["calls"] and isinstance(r["calls"][0], int) and not r.get("reuse"):
+                r["calls"][0] = max(r["calls"][0], r["batch"] + 1)
     for s in core + extra + same:
         s.setdefault("clock", "real")
         for r in s["runs"]:
@@ -1039,19 +1132,6 @@ def _check_record(ck, ev, scn, rec):
             ck.mismatch(case, {"model_files": sorted(mdir), "disk_files": sorted(rec["files"])})
 
     ev.ask({"op": "replay", "runs": runs}, on_replay)
-    # the file a finished search leaves is a well-formed table of finished evaluations holding every dumped row
-    fin = rec["files"].get("results.csv")
-    if fin is not None:
-        fown = _tag_owner(ops).get("results.csv", 0)
-        fdumped = [j for g in gs if g["kind"] == "dump" and ops[g["ops"][0]].get("sid", 0) == fown
-                   for i in g["ops"] if ops[i]["op"] == "write" for j in _jobs(ops[i]["lines"])]
-
-        def on_final(rep):
-            if not rep["visible"]:
-                ck.fail(FP_REUSE if _headerless(scn, rep["lines"]) else "C15|wellformed-or-absent|finished|any",
-                        "the results.csv left by a search that ran to its end is not header + complete rows of finished evaluations",
-                        case, {"lines": rep["lines"][:6], "bytes_head": fin[:200]})
-        ev.ask({"op": "check", "text": fin, "sid": fown, "done": _done_jobs(rec["done"]), "dumped": fdumped}, on_final)
     # every finished search's results are still on disk in distinct files
     _check_snapshots(ck, scn, None, rec["snaps"], rec["files"], "finished", case)
     # ... and a further search in the directory keeps them, loads the last one and runs
@@ -1063,8 +1143,9 @@ def _check_record(ck, ev, scn, rec):
         if not state["failed"]:
             state["failed"] = True
             ck.fail(_fp_nd(scn) if clause is None else f"C15|{clause}|finished|any", what, case, detail)
-    if text is not None and "fit" in post and _has_success(text) and post["fit"] != "ok":
-        fail("reload", "CBO.fit_surrogate cannot load the results.csv of a finished search", post["fit"])
+    fown = _tag_owner(ops).get("results.csv", 0) if text is not None else len(scn["runs"]) - 1
+    _judge(ck, ev, scn, case, "finished", text, fown, rec["done"],
+           [] if scn["runs"][fown].get("elsewhere") else _dumped_jobs(rec["dumped"], fown), post, fail, state)
     _check_post(ck, ev, scn, case, "finished", text, rec, fail)
     ck.case(case, nontrivial=len(ops) > 4)
     return ops, gs, runs
@@ -1140,6 +1221,51 @@ def _check_snapshots(ck, scn, k, snaps, files, phase, case):
                 {"lost_snapshot_head": lost[0][:300], "files": sorted(files), "phase": phase})
 
 
+def _judge(ck, ev, scn, case, phase, text, own, done_lines, dumped, post, fail, state):
+    """the oracle on one state of the disk: `text` = bytes of results.csv (None = absent), `own` = the search that
+    wrote it, `done_lines` = the run-functions' completion log, `dumped` = jobs whose dump_jobs_done_to_csv call had
+    returned (the harness's own log, not the file trace), `post` = what fit_surrogate / a continuing search did"""
+    done, status = _done_jobs(done_lines), _done_status(done_lines)
+
+    def on_check(rep):
+        lines = rep["lines"]
+        if not rep["visible"]:
+            if text is not None and not rep["wf"] and _headerless(scn, lines, phase):
+                state["failed"] = True
+                ck.fail(FP_REUSE, "results.csv has no header line: the evaluator kept appending as for its previous search", case,
+                        {"lines": lines[:6], "bytes_head": text[:200]})
+            elif text is not None and not rep["wf"]:
+                fail("wellformed-or-absent", f"results.csv ({phase}) is neither absent nor header + complete rows "
+                     f"({len(text)} bytes on disk, {len(done)} evaluations had finished)", {"lines": lines[-6:], "bytes_head": text[:200]})
+            elif text is None:
+                fail("rows-lost", "results.csv is absent although a dump had returned", {"dumped": dumped})
+            else:
+                rows = _jobs(lines)
+                if any(j not in done for j in rows):
+                    fail("rows-finished", "a row on disk belongs to no evaluation whose run-function returned", {"rows": rows, "done": done})
+                else:
+                    fail("rows-lost", "an evaluation whose dump_jobs_done_to_csv call had returned is not on disk",
+                         {"missing": [j for j in dumped if j not in rows], "rows": len(rows), "dumped": len(dumped)})
+        if text is None:
+            return
+        # a row of an evaluation that succeeded must carry its objectives
+        bad = _bad_objective_rows(text, own, status)
+        if bad:
+            fail("row-carries-objectives", "the row of an evaluation that succeeded does not show the objectives its run-function returned",
+                 {"rows": bad[:3], "header": text.split("\n", 1)[0][:200]})
+        # loader model vs the real fit_surrogate; it must load as soon as the table holds one successful evaluation
+        rows = _jobs(lines) if lines else []
+        if "fit" in post and not any(isinstance(status.get((own, j[1])), int) for j in rows):
+            ck.count("reload-skipped:no-successful-row")
+        elif "fit" in post:
+            real_ok = post["fit"] == "ok"
+            if rep["reload"]["ok"] != real_ok and not bad:
+                ck.mismatch(case, {"reload_model": rep["reload"], "fit_surrogate": post["fit"]})
+            if not real_ok:
+                fail("reload", f"CBO.fit_surrogate cannot load results.csv ({phase})", post["fit"])
+    ev.ask({"op": "check", "text": text, "sid": own, "done": done, "dumped": dumped}, on_check)
+
+
 def _check_kill(ck, ev, scn, rec, gs, runs, k, res):
     ops = rec["code_ops"]
     phase = _phase_of(ops, gs, k)
@@ -1167,15 +1293,8 @@ def _check_kill(ck, ev, scn, rec, gs, runs, k, res):
     owner = _tag_owner(ops[:k])
     cur = ([int(m.split()[1]) for m in res["marks"] if m.startswith(("run ", "act "))] or [0])[-1]
     own = owner.get("results.csv", cur)
-    # jobs whose dump had returned (dump group complete before op k), of the search that owns results.csv
-    dumped = []
-    for g in gs:
-        if g["kind"] == "dump" and g["ops"][-1] < k:
-            first = ops[g["ops"][0]]
-            if first.get("sid", 0) == own == cur:
-                for i in g["ops"]:
-                    if ops[i]["op"] == "write":
-                        dumped += _jobs(ops[i]["lines"])
+    # jobs whose dump call had returned, of the search that owns results.csv: from the harness's dump-returned log
+    dumped = _dumped_jobs(res["dumped"], own)
     done = _done_jobs(res["done"])
     text = res["files"].get("results.csv")
     post = res.get("post", {})
@@ -1187,36 +1306,7 @@ def _check_kill(ck, ev, scn, rec, gs, runs, k, res):
         state["failed"] = True
         ck.fail(_fp_nd(scn) if clause is None else f"C15|{clause}|{phase}|{_opts(scn, phase)}", what, case, detail)
 
-    def on_check(rep):
-        if not rep["visible"]:
-            lines = rep["lines"]
-            if text is not None and not rep["wf"] and _headerless(scn, lines, phase):
-                state["failed"] = True
-                ck.fail(FP_REUSE, "results.csv has no header line: the evaluator kept appending as for its previous search", case,
-                        {"lines": lines[:6], "bytes_head": text[:200]})
-            elif text is not None and not rep["wf"]:
-                fail("wellformed-or-absent", f"after a kill in {phase} results.csv is neither absent nor header + complete rows "
-                     f"({len(text)} bytes on disk, {len(done)} evaluations had finished)", {"lines": lines, "bytes_head": text[:200]})
-            elif text is None:
-                fail("rows-lost", "results.csv is absent although a dump had returned", {"dumped": dumped})
-            else:
-                rows = _jobs(lines)
-                if any(j not in done for j in rows):
-                    fail("rows-finished", "a row on disk belongs to no evaluation whose run-function returned", {"rows": rows, "done": done})
-                else:
-                    fail("rows-lost", "an evaluation whose dump had returned is not on disk", {"rows": rows, "dumped": dumped})
-        # loader model vs the real fit_surrogate (a table without a single successful evaluation gives
-        # fit_surrogate nothing to fit, killed or not: not C15's subject)
-        if text is not None and "fit" in post and not _has_success(text):
-            ck.count("reload-skipped:no-successful-row")
-        elif text is not None and "fit" in post:
-            model_ok = rep["reload"]["ok"]
-            real_ok = post["fit"] == "ok"
-            if model_ok != real_ok:
-                ck.mismatch(case, {"reload_model": rep["reload"], "fit_surrogate": post["fit"]})
-            if not real_ok:
-                fail("reload", f"CBO.fit_surrogate cannot load the results.csv left by a kill in {phase}", post["fit"])
-    ev.ask({"op": "check", "text": text, "sid": own, "done": done, "dumped": dumped}, on_check)
+    _judge(ck, ev, scn, case, phase, text, own, res["done"], dumped, post, fail, state)
 
     # model state at the same prefix == disk
     def on_prefix(rep):
@@ -1252,6 +1342,50 @@ def _check_kill(ck, ev, scn, rec, gs, runs, k, res):
         _check_torn(ck, ev, scn, case, tv, text, own, done, dumped)
     # nothing destroyed by the kill
     _check_snapshots(ck, scn, k, res["snaps"], res["files"], phase, case)
+    _check_post(ck, ev, scn, case, phase, text, res, fail)
+
+
+def _selfkill_points(ck, scn, rec):
+    """kill points that are not system calls on results.csv: right after the k-th dump call returned, and at the
+    k-th run-function completion (counted over the whole scenario)"""
+    nd, nc = len(rec["dumped"]), len(rec["done"])
+    if ck.thorough:
+        ds = set(range(1, nd + 1))
+        cs = set(range(1, nc + 1)) if nc <= 8 else {1 + (i * (nc - 1)) // 7 for i in range(8)}
+    else:
+        ds = {1, 2, nd} | ({ck.rng.randint(1, nd)} if nd else set())
+        cs = {1, nc, (nc + 1) // 2}
+    timed = any(isinstance(c, dict) for r in scn["runs"] for c in r["calls"])
+    pts = [{"at": "dump", "k": k} for k in sorted(ds) if 1 <= k <= nd] + [{"at": "done", "k": k} for k in sorted(cs) if 1 <= k <= nc]
+    return pts[:4] if timed and not ck.thorough else pts
+
+
+def _check_selfkill(ck, ev, scn, sk, res):
+    phase = "dump_jobs_done_to_csv returned" if sk["at"] == "dump" else "run-function returned"
+    case = {"scn": scn, "kill": {"selfkill": sk, "phase": phase}}
+    if not (os.WIFSIGNALED(res["status"]) and os.WTERMSIG(res["status"]) == signal.SIGKILL):
+        ck.count("selfkill-not-reached")  # this execution had fewer dumps / completions than the recorded one
+        return
+    ck.count("kill:" + phase)
+    ck.case(case, nontrivial=True)
+    cur = ([int(m.split()[1]) for m in res["marks"] if m.startswith(("run ", "act "))] or [0])[-1]
+    text = res["files"].get("results.csv")
+    here = [i for i, r in enumerate(scn["runs"]) if not r.get("elsewhere")]
+    alld = _dumped_jobs(res["dumped"])
+    if text is None:
+        own = cur
+    else:
+        cands = [i for i in here if i <= cur and any(j[0] == i for j in alld)]
+        own = max(cands) if cands else cur
+    dumped = [j for j in alld if j[0] == own] if own in here else []
+    state = {"failed": False}
+
+    def fail(clause, what, detail):
+        if not state["failed"]:
+            state["failed"] = True
+            ck.fail(_fp_nd(scn) if clause is None else f"C15|{clause}|{phase}|any", what, case, detail)
+    _judge(ck, ev, scn, case, phase, text, own, res["done"], dumped, res.get("post", {}), fail, state)
+    _check_snapshots(ck, scn, None, res["snaps"], res["files"], phase, case)
     _check_post(ck, ev, scn, case, phase, text, res, fail)
 
 
@@ -1332,7 +1466,7 @@ def _corpus_cases():
     return out
 
 
-def _run_cases(ck, pool, scns, kills_for):
+def _run_cases(ck, pool, scns, kills_for, selfkills=True):
     """scns: list of scenarios; kills_for(scn, ops, gs) -> list of op indices to kill before"""
     ev = _Eval(ck)
     t0 = time.time()
@@ -1349,6 +1483,15 @@ def _run_cases(ck, pool, scns, kills_for):
             if inj is None:
                 continue
             todo.append((scn, rec, gs, runs, k, {"scn": scn, "inject": inj, "post": True, "torn": ops[k]["op"] == "write"}))
+    sks = []
+    for scn, rec in zip(scns, recs):
+        if rec.get("code_ops") is not None and selfkills:
+            sks += [(scn, sk) for sk in _selfkill_points(ck, scn, rec)]
+    t0 = time.time()
+    skres = list(pool.map(_task, [{"scn": scn, "selfkill": sk, "post": True} for scn, sk in sks]))
+    for (scn, sk), res in sorted(zip(sks, skres), key=lambda x: (_size(x[0][0]), x[0][1]["k"])):
+        _check_selfkill(ck, ev, scn, sk, res)
+    ck.notes.append(f"self-kill phase: {len(sks)} runs in {time.time() - t0:.1f}s")
     t0 = time.time()
     ress = list(pool.map(_task, [t[-1] for t in todo]))
     # malformed stream for the loader model: mutated copies of real final files
@@ -1379,7 +1522,7 @@ def _run_cases(ck, pool, scns, kills_for):
         ev.close()
     ck.notes.append(f"evaluation + Lean: {time.time() - t0:.1f}s")
     if os.environ.get("C15_DEBUG"):
-        print("\n".join(ck.notes[-3:]), file=sys.stderr)
+        print("\n".join(ck.notes[-4:]), file=sys.stderr)
     if len(todo) >= 4 and ck.hist.get("kill-not-reached", 0) > len(todo) // 2:
         raise HarnessError("most injected kills were not reached: the traced runs are not reproducible")
 
@@ -1428,15 +1571,15 @@ def _inprocess_slice(ck):
             fin = files.get("results.csv")
             own = max(j[0] for j in done) if done else 0
 
-            def on_final(rep, case=case, fin=fin, scn=scn):
-                if not rep["visible"]:
-                    ck.fail(FP_REUSE if _headerless(scn, rep["lines"]) else "C15|wellformed-or-absent|finished|any",
-                            "the results.csv left by a search that ran to its end is not header + complete rows of finished evaluations",
-                            case, {"lines": rep["lines"][:6], "bytes_head": (fin or "")[:200]})
-            if fin is not None:
-                ev.ask({"op": "check", "text": fin, "sid": own, "done": done, "dumped": []}, on_final)
-                if _has_success(fin) and post.get("fit") not in (None, "ok"):
-                    ck.fail("C15|reload|finished|any", "CBO.fit_surrogate cannot load the results.csv of a finished search", case, post["fit"])
+            state = {"failed": False}
+
+            def fail(clause, what, detail, case=case, state=state, scn=scn):
+                if not state["failed"]:
+                    state["failed"] = True
+                    ck.fail(_fp_nd(scn) if clause is None else f"C15|{clause}|finished|any", what, case, detail)
+            dl = [l for l in sidef.get("done.log", "").split("\n") if l]
+            dumped = _dumped_jobs([l for l in sidef.get("dumped.log", "").split("\n") if l], own)
+            _judge(ck, ev, scn, case, "finished", fin, own, dl, dumped if fin is not None else [], post, fail, state)
             if post.get("cont") != "ok":
                 ck.fail("C15|continue|finished|any", "a new search in the log_dir of a finished search does not run", case, post.get("cont"))
             ck.case(case, nontrivial=True)
@@ -1474,7 +1617,7 @@ def run(ck):
             specs = {}
             for c in corpus:
                 specs.setdefault(common.canon(c["scn"]), []).append(c.get("kill"))
-            _run_cases(ck, pool, list(uniq.values()), lambda scn, ops, gs: _spec_kills(specs[common.canon(scn)], ops, gs))
+            _run_cases(ck, pool, list(uniq.values()), lambda scn, ops, gs: _spec_kills(specs[common.canon(scn)], ops, gs), selfkills=False)
             ck.count("corpus-cases", len(corpus))
         scns = _scenarios(ck)
         for s in scns:
@@ -1495,8 +1638,18 @@ def run(ck):
 def replay(ck, case):
     scn = case["scn"]
     os.environ["C15_SCRATCH"] = f"{SCRATCH}_{os.getpid()}"
+    kill = case.get("kill") or {}
     with _pool(2) as pool:
-        _run_cases(ck, pool, [scn], lambda s, ops, gs: _spec_kills([case.get("kill")], ops, gs))
+        if "selfkill" in kill:
+            ev = _Eval(ck)
+            res = list(pool.map(_task, [{"scn": scn, "selfkill": kill["selfkill"], "post": True}]))[0]
+            _check_selfkill(ck, ev, scn, kill["selfkill"], res)
+            try:
+                ev.flush()
+            finally:
+                ev.close()
+        else:
+            _run_cases(ck, pool, [scn], lambda s, ops, gs: _spec_kills([case.get("kill")], ops, gs), selfkills=False)
     shutil.rmtree(os.environ["C15_SCRATCH"], ignore_errors=True)
     print("replay:", json.dumps({"scenario": scn, "kill": case.get("kill"), "failures": [f["fingerprint"] for f in ck.failures],
                                  "mismatches": len(ck.mismatches)}))
